@@ -20,11 +20,13 @@ import random
 import shutil
 from fractions import Fraction
 
+from harness.corr import c20_iterdf
+
 ID = "C20"
 DRIVER = "drv_c20"
-LEAN_TARGETS = ["PharmpyProofs.C20.Properties", "PharmpyProofs.C20.CovProperties", "PharmpyProofs.C20.ResultsProperties",
+LEAN_TARGETS = ["PharmpyProofs.C20.IterDfProperties", "PharmpyProofs.C20.Properties", "PharmpyProofs.C20.CovProperties", "PharmpyProofs.C20.ResultsProperties",
                 "PharmpyProofs.C20.JsonProperties", "PharmpyProofs.C20.LstProperties", "drv_c20"]
-PROPERTIES = ["PharmpyProofs/C20/Properties.lean", "PharmpyProofs/C20/CovProperties.lean",
+PROPERTIES = ["PharmpyProofs/C20/IterDfProperties.lean", "PharmpyProofs/C20/Properties.lean", "PharmpyProofs/C20/CovProperties.lean",
               "PharmpyProofs/C20/ResultsProperties.lean", "PharmpyProofs/C20/JsonProperties.lean",
               "PharmpyProofs/C20/LstProperties.lean"]
 LEAN_SOURCES = ["PharmpyModel/C20/*.lean", "PharmpyModel/Generated/ExtCodes.lean", "PharmpyProofs/C20/*.lean",
@@ -684,8 +686,10 @@ def gen_cases(rng, n, tier):
             c = gen_phi(rng, hostile)
         elif r < 0.72:
             c = gen_cov(rng, hostile)
-        elif r < 0.92:
+        elif r < 0.86:
             c = gen_generic(rng, hostile)
+        elif r < 0.92:
+            c = c20_iterdf.gen_iterdf(rng)
         elif r < 0.945:
             c = gen_relations(rng)
         elif r < 0.97:
@@ -772,7 +776,7 @@ def corpus_cases():
                        "rows": [[["i", 1], ["i", 1], zc, zc, ["f", False, 5, 16, 9473520242962552]],
                                 [["i", 2], ["i", 2], zc, zc, ["f", False, 0, 16, 0]],
                                 [["i", 3], ["i", 4], _S(959341, -2), _S(221606, -2), ["f", False, 9, 16, 9823422194015698]]]}]}
-    return [ext, ext2, ext3, gen, gen2, gen3, rd, rd2, rd3, rd4, rd5, rd6, rd7, js, seq, phi]
+    return [ext, ext2, ext3, gen, gen2, gen3, rd, rd2, rd3, rd4, rd5, rd6, rd7, js, seq, phi] + c20_iterdf.corpus()
 
 
 def shrink(case):
@@ -2182,6 +2186,10 @@ def run_case(case, drv):
     if kind == "json":
         run_json(case, drv, k, mon, tags)
         return {"k": k, "mon": mon, "tags": tags, "nontrivial": True}
+    if kind == "iterdf":
+        import sys
+        c20_iterdf.run_iterdf(case, drv, k, mon, tags, sys.modules[__name__])
+        return {"k": k, "mon": mon, "tags": tags, "nontrivial": len(case["rows"]) >= 2}
     if not POSTS:
         _load_posts()
     tabs = case["tables"]
